@@ -63,3 +63,12 @@ M("c07-gv-centre", "C07", "gv centring uses crop_size/2", PF,
   "        gv = torch.arange(crop_size, dtype=torch.float32) - (crop_size // 2 - 0.25)\n        dx_hat, dy_hat = integral_regression(cm_crops, xv=gv, yv=gv)\n        offsets = torch.cat([dx_hat, dy_hat], dim=1)\n\n    # Apply offsets.\n    refined_peaks = rough_peaks.clone()")
 M("c07-xy-swap", "C07", "global peaks: x,y stacked in the wrong order", PF, "torch.stack([max_indices_x, max_indices_y], dim=-1)", "torch.stack([max_indices_y, max_indices_x], dim=-1)")
 M("c07-valid-idx-crop", "C07", "crops taken from peak order instead of valid_idx maps", PF, "    cm_crops = crop_bboxes(cms, bboxes, valid_idx)\n", "    cm_crops = crop_bboxes(cms, bboxes, torch.arange(len(valid_idx)))\n")
+
+PG = "sleap_nn/inference/paf_grouping.py"
+M("c17-root-first-listed", "C17", "toposort: root = first listed source", PG, "    root_ind = next(nx.topological_sort(dg))\n", "    root_ind = edges[0][0]\n")
+M("c17-sorted-range", "C17", "toposort: identity order", PG, "    sorted_edge_inds = tuple([edges.index(edge) for edge in sorted_edges])\n", "    sorted_edge_inds = tuple(range(len(edges)))\n")
+M("c17-undirected-bfs", "C17", "toposort: BFS over the undirected graph from first node", PG,
+  "    sorted_edges = nx.bfs_edges(dg, root_ind)\n    sorted_edge_inds = tuple([edges.index(edge) for edge in sorted_edges])\n",
+  "    sorted_edges = [e if e in edges else (e[1], e[0]) for e in nx.bfs_edges(dg.to_undirected(), edges[0][0])]\n    sorted_edge_inds = tuple([edges.index(edge) for edge in sorted_edges])\n")
+M("c17-dfs-postorder", "C17", "toposort: reversed dfs edge order for deep trees", PG,
+  "    sorted_edges = nx.bfs_edges(dg, root_ind)\n", "    sorted_edges = list(nx.bfs_edges(dg, root_ind))\n    if len(edges) >= 5:\n        sorted_edges = sorted_edges[:2] + sorted_edges[2:][::-1]\n")
